@@ -63,8 +63,10 @@ DFCC_ASPECTS = ('time', 'enom', 'draws', 'count')   # 'evis' is discharged by th
 
 
 def contract_clauses(f, c, consts, level, enforce):
+    all_assigns = list(c.assigns)       # the frame always lists every ghost target (ghost code writes all aspects)
     c = oblig._Sel(c, lambda a: a is None or a in DFCC_ASPECTS)
     c.requires = [r for k, r in c.requires]
+    c.assigns = all_assigns
     L = []
     for r in mem_requires(f, level) if enforce else []:
         L.append('__CPROVER_requires(%s)' % r)
